@@ -196,8 +196,10 @@ def run(prog: Program, rep: Report, tier: str):
     stable_sort(prog, rep)
     request_invariant(prog, rep, ctors)
     readers_pure(prog, rep)
-    rep.floor("'p = p or D' defaults in selection constructors", n_or, 4)
-    rep.floor("'while v > 0' loops in selection constructors", n_loops, 1)
+    # counts of the idioms the two rules look at; informational (a constructor may legitimately spell its defaults or its
+    # loop differently - the universe floor is the number of constructors analysed, above)
+    rep.floor("'p = p or D' defaults in selection constructors", n_or, 0)
+    rep.floor("'while v > 0' loops in selection constructors", n_loops, 0)
     names.check(prog, rep, FILES, clause="C03.5", floor=12)
 
 
